@@ -534,7 +534,19 @@ def _parse_glue(out: str):
     return {"obj": num(head[4:]), "grad": [num(t) for t in parse_sexp(gtxt)[0]], "path": path, "cons": cons}
 
 
-def check_glue(rng, rep, n_cases):
+def _root_wrapped(rng, U, gen):
+    """a vector / matrix reduction node at (or one or two wrappers below) the ROOT: the shapes for which
+    compile_jacobian tries the per-node `jacobian_row` shortcuts before falling back to gradient()"""
+    V = gen.rand_vector_node(rng, U, rng.choice([0, 1]), True)
+    c = rng.choice([1.0, 2.0, -3.0, 0.5, 4, 10])
+    k = rng.choice([2.0, -1.0, 3, 0.5, -2])
+    forms = [lambda: c - V, lambda: V - c, lambda: c + V, lambda: V + c, lambda: -V, lambda: k * V, lambda: V * k,
+             lambda: V / k, lambda: (c - V) - 1.0, lambda: k * (c - V), lambda: c - k * V, lambda: -(c - V),
+             lambda: (c - V) / k, lambda: 1.0 - (c - V), lambda: V]
+    return rng.choice(forms)()
+
+
+def check_glue(rng, rep, n_cases, glue_seed=None):
     import gen
     import oracle
     from ser import Ids, ser, store_text
@@ -547,15 +559,15 @@ def check_glue(rng, rep, n_cases):
         ids = Ids()
         is_max = rng.random() < 0.5
         depth = rng.choice([1, 2, 2, 3])
-        obj = gen.rand_expr(rng, U, depth, safe=True)
+        obj = gen.rand_expr(rng, U, depth, safe=True) if rng.random() < 0.6 else _root_wrapped(rng, U, gen)
         if not hasattr(obj, "evaluate") or not gen.expr_vars(obj):
             obj = obj + rng.choice(U.all_vars())
         P = Problem()
         (P.maximize if is_max else P.minimize)(obj)
         cons = []
         for _k in range(rng.choice([0, 1, 2, 3])):
-            lhs = gen.rand_expr(rng, U, rng.choice([1, 2]), safe=True)
-            rhs = rng.choice([gen.const(rng), gen.rand_expr(rng, U, 1, safe=True)])
+            lhs = gen.rand_expr(rng, U, rng.choice([1, 2]), safe=True) if rng.random() < 0.55 else _root_wrapped(rng, U, gen)
+            rhs = rng.choice([gen.const(rng), gen.const(rng), gen.rand_expr(rng, U, 1, safe=True)])
             sense = rng.choice(["<=", ">=", "=="])
             if not gen.expr_vars(lhs):
                 lhs = lhs + rng.choice(U.all_vars())
@@ -635,6 +647,12 @@ def check_glue(rng, rep, n_cases):
                             break
             except (oracle.NotRegular, ZeroDivisionError, OverflowError, ValueError):
                 rep.skipped["glue: irregular point"] = rep.skipped.get("glue: irregular point", 0) + 1
+    for f in rep.oracle_failures:
+        if "glue" in f:
+            f.setdefault("glue_seed", glue_seed)
+            f.setdefault("glue_n", n_cases)
+    if glue_seed is not None and getattr(check_glue, "oracle_only", False):
+        return
     outs = core.run_lean(lines)
     for line, (real, order, is_max, ncons), out in zip(lines, metas, outs):
         model = _parse_glue(out)
@@ -677,7 +695,8 @@ def run(ctx) -> core.Report:
         check_problem(rng, p, rep, lines, metas, METHODS)
     for i in range(150 if thorough else 30):
         check_vector_objective(rng, rep, METHODS)
-    check_glue(rng, rep, 700 if thorough else 120)
+    gs = ctx["seed"] * 7919 + 13
+    check_glue(core.Rng(gs), rep, 700 if thorough else 120, glue_seed=gs)
     # dispatch table of Problem.solve: exhaustive over method names × linearity, against the model
     from optyx import Problem, Variable
     x = Variable("x", lb=0, ub=4)
@@ -713,7 +732,8 @@ def run(ctx) -> core.Report:
 def search(ctx, rep):
     rng = core.Rng(ctx["seed"] + 15485863)
     r2 = core.Report()
-    check_glue(rng, r2, 400)
+    gs = ctx["seed"] * 104729 + 7
+    check_glue(core.Rng(gs), r2, 400, glue_seed=gs)
     if r2.oracle_failures:
         return r2.oracle_failures[0]
     for i in range(600):
@@ -726,6 +746,19 @@ def search(ctx, rep):
 
 def replay(payload) -> bool:
     f = payload["failure"]
+    if "glue" in f:
+        # the family is regenerated from its own seed: the same problems, orders and points
+        rep = core.Report()
+        check_glue.oracle_only = True
+        try:
+            check_glue(core.Rng(f["glue_seed"]), rep, f["glue_n"], glue_seed=f["glue_seed"])
+        finally:
+            check_glue.oracle_only = False
+        bad = [g for g in rep.oracle_failures if "glue" in g]
+        if bad:
+            print(bad[0])
+            return False
+        return True
     if "vector_objective" in f:
         # the family is small: re-run it (all kinds / orders are drawn within a few dozen samples)
         rep = core.Report()
